@@ -137,7 +137,7 @@ CHECKS = {
         "thread-schedule exploration with a hand-written scheduler (sys.settrace + semaphore baton)",
         text="65 API calls (every format's load/dump/write_input on corpus or generated data, failing calls, ghost atoms): each history starts from the initial interpreter state in a forked child; every step's result must equal the "
         "call alone in a fresh interpreter and the snapshot of all module-level tables and the warnings machinery must remain the initial state (1 state, self-loops only). Threads: all schedules with <=2 preemptions of pairs "
-        "(thorough: 15 pairs + 2 triples) of 6 cheap calls, scheduling points at every line of the API wrapper and of catch_warnings.__enter__/__exit__; dense pass: pairs of calls into the SAME format module (5 pairs quick, 22 thorough) with a scheduling point at every line of iodata code (first 2 / 4 visits of each line per thread), all schedules with <=1 preemption; '
+        "(thorough: 15 pairs + 2 triples) of 6 cheap calls, scheduling points at every line of the API wrapper and of catch_warnings.__enter__/__exit__; dense pass: pairs of calls into the SAME format module (5 pairs quick, 22 thorough) with a scheduling point at every line of iodata code (first 2 / 4 visits of each line per thread), all schedules with <=1 preemption; "
         "interleaved frame iterators: every order of the 4+4 steps of two load_many iterators over 21 format pairs, plus an unrelated load_one at every position of three orders.",
         note="thread results compared with the same calls run alone; harness records warnings through one process-wide hook (no catch_warnings in threads); executions capped at 3000/60000 per group (cap recorded)",
         design="DESIGN.md §2 C16",
